@@ -76,10 +76,10 @@ SortOK(o, r) ==
                ELSE /\ NoDup(r.r) /\ Rng(r.r) = Rng(q) /\ r.r[1] = q[1]
                     /\ \A k \in 1..(Len(r.r) - 1) : r.r[k + 1] = nxt(r.r[k])[1]
 
-ObsOK(e) == \A j \in DOMAIN e.q :
-               IF e.q[j].k = "sort" THEN SortOK(e.q[j], e.qr[j]) ELSE Eval(e.q[j]) = e.qr[j]
+OneObsOK(o, r) == ~InDomain(o) \/ (IF o.k = "sort" THEN SortOK(o, r) ELSE Eval(o) = r)
+ObsOK(e) == \A j \in DOMAIN e.q : OneObsOK(e.q[j], e.qr[j])
 
-FirstBadObs(e) == LET b == {j \in DOMAIN e.q : ~(IF e.q[j].k = "sort" THEN SortOK(e.q[j], e.qr[j]) ELSE Eval(e.q[j]) = e.qr[j])}
+FirstBadObs(e) == LET b == {j \in DOMAIN e.q : ~OneObsOK(e.q[j], e.qr[j])}
                   IN IF b = {} THEN <<>> ELSE <<e.q[Min(b)], Eval(e.q[Min(b)])>>
 
 \* serialisation writes an unset value as the null value of its type
@@ -90,8 +90,15 @@ SerOK(e) == \A c \in ClassSet : \A k \in DOMAIN e.ser[c] :
                (\E n \in DOMAIN row : row[n] = "absent") \/
                \A n \in DOMAIN row : e.ser[c][k][n] = (IF row[n] = "unset" THEN NullOf(AttrType(c, n)) ELSE row[n])
 
-Conform(e) == FirstBad(<<
-    <<"res", res = e.res>>,
+\* an instance whose attribute was deleted cannot be printed, so the message of a
+\* documented exception cannot be built: the rejection then surfaces as AttributeError
+HasAbsent == \E c \in ClassSet : \E i \in Live(c) : \E n \in DOMAIN val[c][i] : val[c][i][n] = "absent"
+ResOK(e) == res = e.res \/ (HasAbsent /\ res \in {"RelateException", "UnrelateException"} /\ e.res = "PY:AttributeError")
+
+\* after the rejected creation of an instance with an attribute of unknown type only
+\* the outcome is fixed by the property (the trace ends there)
+Conform(e) == IF e.op = "NewUnknown" THEN (IF res = e.res THEN "" ELSE "res") ELSE FirstBad(<<
+    <<"res", ResOK(e)>>,
     <<"observable", e.oerr = "">>,
     <<"pool", ProjPool = e.pool>>,
     <<"nav", ProjNav = e.nav>>,
